@@ -35,6 +35,7 @@ R(_dt, timeenv.DATETIME_MODULE)
 R(_dt.datetime, timeenv.SDateTimeClass)
 R(_dt.timedelta, timeenv.STimedeltaClass)
 R(_dt.time, timeenv.STimeClass)
+R(_dt.date, timeenv.SDateClass)
 R(asyncio.open_connection, aio.open_connection)
 R(asyncio.get_running_loop, aio.get_running_loop)
 R(asyncio.get_event_loop, aio.get_running_loop)
